@@ -93,7 +93,10 @@ pub fn cli() -> String {
     std::env::var("IPT_CLI").unwrap_or_else(|_| format!("{}/target/cli/release/islamic_prayer_times", verif_dir()))
 }
 pub fn run_cli(dir: &Path, args: &[String]) -> Run {
-    let out = Command::new(cli()).args(args).current_dir(dir).env("TZ", "UTC").output().expect("spawn CLI (machinery)");
+    run_cli_tz(dir, args, "UTC")
+}
+pub fn run_cli_tz(dir: &Path, args: &[String], tz: &str) -> Run {
+    let out = Command::new(cli()).args(args).current_dir(dir).env("TZ", tz).output().expect("spawn CLI (machinery)");
     Run { code: out.status.code(), stdout: String::from_utf8_lossy(&out.stdout).to_string(), stderr: String::from_utf8_lossy(&out.stderr).to_string() }
 }
 fn fresh_dir(tag: &str) -> PathBuf {
@@ -261,6 +264,47 @@ pub fn judge(ctx: &Ctx, l: &mut Local, c: &Cfg, tag: &str) {
     let _ = std::fs::remove_dir_all(&dir);
 }
 
+/// The defaults that depend on the clock. The environment answer "today" is owned through TZ: the three
+/// zones UTC, UTC+14 and UTC-12 always give at least two different civil dates. Expected today =
+/// UTC now + zone offset, read before and after the run (a run that straddles a date change is repeated).
+/// variant: 0 = no dates (today..=today); k > 0 = only `-n today+k` (today..=today+k);
+/// -1 = only `-n yesterday` (the reversed range today..=yesterday: no dates)
+pub const TODAY_ZONES: [(&str, i64); 3] = [("UTC", 0), ("XXX-14", 14), ("XXX12", -12)];
+pub fn judge_today(ctx: &Ctx, l: &mut Local, method: &str, site: Site, zone: usize, variant: i64, tag: &str) {
+    let (tz, off) = TODAY_ZONES[zone];
+    let today_now = || (chrono::Utc::now() + chrono::Duration::hours(off)).date_naive();
+    let dir = fresh_dir(tag);
+    let key = format!("today_{}_{}_v{}_{}", method, site.key(), variant, tz);
+    let case = json!({"kind": "today", "method": method, "site": site, "zone": zone, "variant": variant});
+    for _attempt in 0..3 {
+        let t0 = today_now();
+        let mut a: Vec<String> = vec![format!("--gmt={}", site.gmt), format!("--latitude={}", site.lat), format!("--longitude={}", site.lon), format!("--method={}", method)];
+        let end = t0 + chrono::Duration::days(variant);
+        if variant != 0 {
+            a.extend(["-n".into(), end.to_string()]);
+        }
+        a.extend(["-o".into(), "o.json".into(), "-p".into(), "p.json".into()]);
+        let r = run_cli_tz(&dir, &a, tz);
+        l.evals += 1;
+        if today_now() != t0 {
+            continue; // the civil date changed during the run: ask again
+        }
+        let m: Method = method_of(&Some(method.to_string()));
+        let dr = DateRange::from(t0..=end);
+        let expected: RangeResult = prayer_times_dt_rng(&Params::new(m), site.loc(), &dr);
+        let got = serde_json::from_slice::<RangeResult>(&std::fs::read(dir.join("o.json")).unwrap_or_default()).ok();
+        let pc = serde_json::from_slice::<ParamsConfig>(&std::fs::read(dir.join("p.json")).unwrap_or_default()).ok();
+        l.nontrivial += 1;
+        if r.code != Some(0) || got.as_ref() != Some(&expected) || pc.and_then(|p| p.date_range) != Some(dr) {
+            ctx.violation("absent_dates_default_to_today", &key, case, json!({"args": a, "TZ": tz, "today_in_that_zone": t0.to_string(), "exit": r.code, "dates_expected": expected.keys().map(|d| d.to_string()).collect::<Vec<_>>(), "dates_got": got.map(|g| g.keys().map(|d| d.to_string()).collect::<Vec<_>>())}));
+        }
+        let _ = std::fs::remove_dir_all(&dir);
+        return;
+    }
+    eprintln!("MACHINERY: the civil date kept changing during three runs of the CLI");
+    std::process::exit(3);
+}
+
 pub fn judge_rejected(ctx: &Ctx, l: &mut Local, args: &[String], tag: &str) {
     let dir = fresh_dir(tag);
     let mut a = args.to_vec();
@@ -345,7 +389,7 @@ pub fn rejected_lines() -> Vec<Vec<String>> {
 pub fn explore(ctx: &Ctx) {
     let quick = ctx.tier == Tier::Quick;
     ctx.rule("every accepted configuration is one case = a sequence of 8 runs of the real binary (-o -p; -i -o; listing + -p over the existing file; -i listing; -o alone; -i -p -o; start date without end date; a shorter range over the same paths); every rejected command line is one case; all distinct, all non-trivial (each is judged against the library resp. the rejection contract)");
-    ctx.assume("the start date is always given explicitly (the 'today' default of an absent start date is the one uncontrolled input); an absent end date means the start date");
+    ctx.assume("an absent end date means the start date; an absent start date means today - the clock is owned through TZ (three zones, at least two different civil dates), expected today = UTC now + zone offset, bracketed before/after each run");
     ctx.assume("negative values are passed as --opt=value (clap rejects the space-separated form: an unaccepted command line, outside the property)");
     ctx.assume("400-day ranges only with |lat| <= 58.3; polar sites get <= 31 days (cost of failing nearest-good-day searches)");
     if !Path::new(&cli()).exists() {
@@ -396,6 +440,24 @@ pub fn explore(ctx: &Ctx) {
     par_jobs(ctx, &idx, |i, l| {
         judge_rejected(ctx, l, &rej[*i], &format!("r{}", i));
     });
+    // the clock-dependent defaults, under three answers for "today"
+    let mut tj = vec![];
+    for (mi, m) in METHOD_NAMES.iter().enumerate() {
+        for zone in 0..TODAY_ZONES.len() {
+            for variant in [0i64, 1, 2, 30, -1] {
+                if quick && (mi + zone + variant.unsigned_abs() as usize) % 2 != 0 {
+                    continue;
+                }
+                tj.push((m.to_string(), Site::new([21.4233, -33.9, 58.3][(mi + zone) % 3], [39.8233, -77.2086][mi % 2], 0.0, [3.0, -5.0, 5.75][zone]), zone, variant));
+            }
+        }
+    }
+    ctx.alphabet("clock_dependent_defaults", json!({"cases": tj.len(), "TZ": TODAY_ZONES.iter().map(|z| z.0).collect::<Vec<_>>(), "variants": "no dates; only -n today+1 / +2 / +30; only -n yesterday"}));
+    let idx: Vec<usize> = (0..tj.len()).collect();
+    par_jobs(ctx, &idx, |i, l| {
+        let (m, site, zone, variant) = &tj[*i];
+        judge_today(ctx, l, m, *site, *zone, *variant, &format!("t{}", i));
+    });
     let rf = rejected_files();
     ctx.alphabet("rejected_parameter_files", json!(rf.iter().map(|x| x.0.clone()).collect::<Vec<_>>()));
     let idx: Vec<usize> = (0..rf.len()).collect();
@@ -410,6 +472,9 @@ pub fn replay(ctx: &Ctx, _clause: &str, case: &Value) {
     if case["kind"] == "rejected_file" {
         let content: Option<String> = serde_json::from_value(case["content"].clone()).unwrap_or(None);
         judge_rejected_file(ctx, &mut l, case["what"].as_str().unwrap_or(""), &content, "replay");
+    } else if case["kind"] == "today" {
+        let site: Site = serde_json::from_value(case["site"].clone()).unwrap();
+        judge_today(ctx, &mut l, case["method"].as_str().unwrap(), site, case["zone"].as_u64().unwrap() as usize, case["variant"].as_i64().unwrap(), "replay");
     } else if case["kind"] == "rejected" {
         let args: Vec<String> = serde_json::from_value(case["args"].clone()).unwrap();
         judge_rejected(ctx, &mut l, &args, "replay");
